@@ -11,7 +11,11 @@ VERIF = os.path.dirname(os.path.dirname(os.path.abspath(__file__)))
 
 
 def sh(cmd, cwd=None, env=None, timeout=3600):
-    proc = subprocess.run(cmd, cwd=cwd, env=env, stdout=subprocess.PIPE, stderr=subprocess.STDOUT, timeout=timeout, check=False)
+    try:
+        proc = subprocess.run(cmd, cwd=cwd, env=env, stdout=subprocess.PIPE, stderr=subprocess.STDOUT, timeout=timeout, check=False)
+    except subprocess.TimeoutExpired as err:
+        subprocess.run(["pkill", "-f", " ".join(cmd[-3:])], check=False)
+        return 124, (err.stdout or b"").decode("utf-8", "replace") + "\n[timed out]"
     return proc.returncode, proc.stdout.decode("utf-8", "replace")
 
 
